@@ -33,7 +33,7 @@ type capEntry struct {
 
 func TestCapEviction(t *testing.T) {
 	name := t.Name()
-	hx.Check(t, 4000, 150000, 0, func(rt *rapid.T) {
+	hx.Check(t, 4000, 1500000, 0, func(rt *rapid.T) {
 		capN := rapid.IntRange(1, 3).Draw(rt, "cap")
 		cache := uint(rapid.SampledFrom([]int{0, 8}).Draw(rt, "cache"))
 		nops := rapid.IntRange(2, 14).Draw(rt, "nops")
